@@ -8,7 +8,7 @@ import Splipy.Model.Orientation
 `Orientation.mul`, generically in the parametric dimension; `Orientation.all n` enumerates
 exactly the well-formed orientations. -/
 
-namespace Splipy
+namespace Splipy.MP
 
 theorem map_getD_range {α : Type} (l : List α) (d : α) :
     (List.range l.length).map (fun i => l.getD i d) = l := by
@@ -325,4 +325,4 @@ theorem Orientation.mem_all (n : ℕ) (o : Orientation) : o ∈ Orientation.all 
   · rintro ⟨p, hp, f, hf, rfl⟩; exact ⟨hp, hf⟩
   · rintro ⟨hp, hf⟩; exact ⟨o.perm, hp, o.flip, hf, rfl⟩
 
-end Splipy
+end Splipy.MP
